@@ -1632,10 +1632,14 @@ func dbgSpec(recv, name, lean, binders string, pn []string) *fnSpec {
 	if name == "prepend" {
 		ret = "List Pgs.Bytes"
 	}
+	ex := map[string]string{"prefix": "pfx", "d": "()", "d.prefix": "storedPrefix", "format": "format",
+		"append([]interface{}{d.prefix}, v...)": "(storedPrefix :: v)"}
+	if name != "Push" {
+		delete(ex, "prefix") // only Push has a parameter of that name; elsewhere it is a local
+	}
 	return &fnSpec{file: "debug.go", recv: recv, name: name, lean: lean, binders: binders, ret: ret, rn: "d", pn: pn,
-		exprs: map[string]string{"prefix": "pfx", "d": "()", "d.prefix": "storedPrefix", "format": "format",
-			"append([]interface{}{d.prefix}, v...)": "(storedPrefix :: v)"},
-		calls: map[string]string{"fmt.Sprintf": "list:sprintf", "strings.HasPrefix": "hasPrefix", "lit:prefixedDebugger": "mkPrefixedDebugger parent prefix"}}
+		exprs: ex,
+		calls: map[string]string{"fmt.Sprintf": "list:sprintf", "strings.HasPrefix": "hasPrefix", "strings.ReplaceAll": "replaceAllB", "lit:prefixedDebugger": "mkPrefixedDebugger parent prefix"}}
 }
 
 func perSpec(name, lean, binders, ret, mode string, pn []string) *fnSpec {
@@ -2836,6 +2840,8 @@ func genCode(repo string) (map[string]string, error) {
 	b.WriteString("structure FieldN where\n  fqn : Pgs.Bytes\n  name : Pgs.Bytes\n  firstOfOneof : Bool\n  oneofFqn : Pgs.Bytes\n  oneofName : Pgs.Bytes\n")
 	b.WriteString("/-- a Go map keyed by fully-qualified names, which are distinct: the record of what was stored, in order -/\n")
 	b.WriteString("def assocPut (m : List (Pgs.Bytes × Pgs.Bytes)) (k v : Pgs.Bytes) : List (Pgs.Bytes × Pgs.Bytes) := m ++ [(k, v)]\n")
+	b.WriteString("/-- `strings.ReplaceAll(s, old, new)` for a one-byte `old` -/\n")
+	b.WriteString("def replaceAllB (s old new : Pgs.Bytes) : Pgs.Bytes := match old with | [c] => (s.map fun x => if x == c then new else [x]).flatten | _ => s\n")
 	b.WriteString("def lookupTbl (t : List (Pgs.Bytes × Pgs.Bytes)) (k : Pgs.Bytes) : Option Pgs.Bytes := (t.find? (·.1 == k)).map (·.2)\n")
 	b.WriteString("/-- a prefixedDebugger, as far as its output goes, is the prefix string it stores -/\n")
 	b.WriteString("def mkPrefixedDebugger (parent : Unit) (prefix_ : Pgs.Bytes) : Pgs.Bytes := prefix_\n")
